@@ -40,6 +40,17 @@ def pool_for(op, group):
     return "scalar"
 
 
+def low16(op):
+    """stated bound on instruction words for opcodes whose immediates size a host container that is legitimately grown"""
+    if op == 76:
+        return "|w: u32| (w & 0xFFFF) <= 2"            # SetGlobalIdx grows globals_by_index to idx+1
+    if op in (77, 78, 104):
+        return "|w: u32| (w & 0xFFFF) <= 2 && ((w >> 16) & 0xFF) <= 5"   # slot id / global idx; dest sizes the register file
+    if op in (80, 81):
+        return "|w: u32| ((w >> 16) & 0xFF) <= 5"      # new_base = base + dest + 1: the register file is grown to fit
+    return "|_w: u32| true"
+
+
 def harness_name(op, name):
     return "c04_op_%03d_%s" % (op, name.lower())
 
@@ -61,9 +72,32 @@ def table(repo, groups):
     return rows
 
 
+def verifier_rows(rows):
+    """concrete container shapes per verifier obligation (symbolic shapes do not finish): (tail words, constants, nested fn,
+    nested upvalue descriptors, own upvalue descriptor)"""
+    out = []
+    for r in rows:
+        op = r["op"]
+        shapes = [(1, 1, False, 0, False)]
+        if op in (77, 78, 104):
+            shapes = [(0, 1, False, 0, False), (1, 1, False, 0, False), (2, 1, False, 0, False)]
+        elif op in (2, 24, 25, 39):
+            shapes = [(0, 0, False, 0, False), (1, 2, True, 0, False)]
+        elif op == 35:
+            shapes = [(0, 0, False, 0, False), (0, 1, False, 0, False), (0, 1, True, 0, False), (0, 2, True, 1, True)]
+        elif op in (36, 37, 80, 81):
+            shapes = [(1, 1, False, 0, False), (1, 1, False, 0, True)]
+        for i, (tail, nconst, nested, nup, upval) in enumerate(shapes):
+            out.append({"op": op, "name": r["name"], "harness": r["harness"].replace("c04_op_", "c04_vop_") + "_s%d" % i,
+                        "tail": tail, "nconst": nconst, "nested": nested, "nup": nup, "upval": upval, "shape": i})
+    return out
+
+
 def generate(repo, groups):
     rows = table(repo, groups)
     lines = ["// GENERATED per-opcode harnesses (lib/opgen.py) from bytecode/src/bytecode/opcode.rs + run.rs dispatch table\n"]
+    ops = opcode_table(repo)
+    lines.append("pub(crate) const VERIF_VALID_OPCODES: [bool; 256] = [%s];\n" % ", ".join("true" if i in ops else "false" for i in range(256)))
     for r in rows:
-        lines.append("c04_step!(%s, step_%s, %d, %s);\n" % (r["harness"], r["group"], r["op"], POOL[r["pool"]]))
+        lines.append("c04_step!(%s, step_%s, %d, %s, %s);\n" % (r["harness"], r["group"], r["op"], POOL[r["pool"]], low16(r["op"])))
     return {"text": "".join(lines), "count": len(rows), "rows": rows}
